@@ -1562,6 +1562,33 @@ func (c *Ctx) readCycleRule(rule string) {
 	for _, g := range c.redialSpawns() {
 		redial[g] = true
 	}
+	// the connection is over: the first instruction of a select arm that received the connection's exit
+	// signal (or its context's Done): nothing is left to read for
+	exitSeen := map[ssa.Instruction]bool{}
+	for _, fn := range p.Funcs {
+		if pkgOf(fn) != p.Root.Pkg || fn == r.FnLoop {
+			continue
+		}
+		allInstrs(fn, func(in ssa.Instruction) {
+			sel, ok := in.(*ssa.Select)
+			if !ok {
+				return
+			}
+			arms, _ := selectArms(sel)
+			for _, a := range arms {
+				if a.Body == nil || a.State.Dir != types.RecvOnly || len(a.Body.Instrs) == 0 {
+					continue
+				}
+				isDone := false
+				if ci, ok := a.State.Chan.(*ssa.Call); ok && ci.Common().IsInvoke() && ci.Common().Method.Name() == "Done" && isNamed(ci.Common().Value.Type(), "context", "Context") {
+					isDone = true
+				}
+				if isLoadOf(a.State.Chan, r.FExiting) || isDone {
+					exitSeen[a.Body.Instrs[0]] = true
+				}
+			}
+		})
+	}
 	// a goroutine started to deal with the message carries the obligation on: every path through it
 	// must restart the reader or signal loss (recursively, bounded)
 	var carries func(fn *ssa.Function, depth int) bool
@@ -1586,7 +1613,7 @@ func (c *Ctx) readCycleRule(rule string) {
 		return res
 	}
 	done = func(in ssa.Instruction) bool {
-		if isRestart(in) || isLoss(in) || redial[in] {
+		if isRestart(in) || isLoss(in) || redial[in] || exitSeen[in] {
 			return true
 		}
 		if g, ok := in.(*ssa.Go); ok {
